@@ -23,7 +23,7 @@ CPU_BUDGET = 10          # seconds per call; the undamaged images take well unde
 AS_LIMIT = 3 << 30
 
 
-class Hang(Exception):
+class Hang(BaseException):      # BaseException: `except Exception` in library code (construct's stream_read) must not swallow it
     pass
 
 
@@ -34,7 +34,7 @@ def _alarm(*a):
 def guarded(fn, *a):
     """-> ('ok'|'exc'|'hang'|'memory', detail, seconds)"""
     signal.signal(signal.SIGALRM, _alarm)
-    signal.alarm(CPU_BUDGET)
+    signal.setitimer(signal.ITIMER_REAL, CPU_BUDGET, 1.0)      # repeating: fires again if a handler-raised Hang is swallowed
     t0 = time.time()
     try:
         r = fn(*a)
@@ -49,7 +49,7 @@ def guarded(fn, *a):
     except MemoryError:
         return ("memory", None, time.time() - t0)
     finally:
-        signal.alarm(0)
+        signal.setitimer(signal.ITIMER_REAL, 0)
 
 
 def _ls(path, inner):
